@@ -231,7 +231,8 @@ func (r *reader) read() (m Message, err error) {
 
 	//fmt.Println("expectChunk", r.expectChunk)
 
-	if r.expectChunk {
+	// unknown chunks are skipped: read chunk headers until a track chunk is found (or reading fails)
+	for r.expectChunk && r.error == nil {
 		r.readChunk()
 	}
 
